@@ -50,6 +50,8 @@ package simple
 //@   requires op != nil && diskOK() && inum < 32
 //@   requires [L1-locked] held[inum] @C17 @C14
 //@   allocates simple.Inode, buf.Buf, marshal.Dec, cell:uint64
+//@   modifies jtouched
+//@   ghostexit jtouched = store(jtouched, inum, true)
 //@   ensures [S1-load] result != nil && fresh(result) && result.Inum == inum && result.Size == ssize(inum) && result.Data == sblk(inum) @C17
 //@   assumes [SI-table] fileno(inum) ==> result.Data == 514 + inum
 //@   assumes [SI-size] result.Size <= 4096
@@ -116,7 +118,7 @@ package simple
 //@   props C17 C11 C14
 //@   requires simpleInv(nfs)
 //@   allocates jrnl.Op, simple.Inode, buf.Buf, marshal.Dec, cell:uint64, nfstypes.GETATTR3res
-//@   modifies held, lastst, jcommits
+//@   modifies held, lastst, jcommits, jtouched
 //@   ensures [G1-root] sino(args.Object) == 1 ==> result.Status == 0 && result.Resok.Obj_attributes.Ftype == 2 && uint64(result.Resok.Obj_attributes.Fileid) == 1 @C17
 //@   ensures [V1-invalid] sino(args.Object) != 1 && !fileno(sino(args.Object)) ==> result.Status == 22 && noCommit() @C17 @C11
 //@   ensures [G1-size] fileno(sino(args.Object)) && result.Status == 0 ==> uint64(result.Resok.Obj_attributes.Size) == ssize(sino(args.Object)) && uint64(result.Resok.Obj_attributes.Fileid) == sino(args.Object) && result.Resok.Obj_attributes.Ftype == 1 @C17
@@ -128,7 +130,7 @@ package simple
 //@   props C17 C11 C14
 //@   requires simpleInv(nfs)
 //@   allocates jrnl.Op, simple.Inode, buf.Buf, marshal.Dec, cell:uint64, nfstypes.READ3res, []uint8
-//@   modifies held, lastst, jcommits
+//@   modifies held, lastst, jcommits, jtouched
 //@   ensures [V1-invalid] !fileno(sino(args.File)) ==> result.Status == 22 && noCommit() @C17 @C11
 //@   ensures [R1-past] fileno(sino(args.File)) && result.Status == 0 && uint64(args.Offset) >= ssize(sino(args.File)) ==> len(result.Resok.Data) == 0 && result.Resok.Eof @C17
 //@   ensures [R1-len] fileno(sino(args.File)) && result.Status == 0 && uint64(args.Offset) < ssize(sino(args.File)) ==> len(result.Resok.Data) == ite(uint64(args.Count) > ssize(sino(args.File)) - uint64(args.Offset), ssize(sino(args.File)) - uint64(args.Offset), uint64(args.Count)) @C17
@@ -144,7 +146,7 @@ package simple
 //@   props C17 C11 C14
 //@   requires simpleInv(nfs)
 //@   allocates jrnl.Op, simple.Inode, buf.Buf, marshal.Dec, marshal.Enc, cell:uint64, nfstypes.WRITE3res, []uint8
-//@   modifies held, lastst, jcommits, jblk, buf.Buf.dirty, []uint8@buf.Buf.Data
+//@   modifies held, lastst, jcommits, jblk, buf.Buf.dirty, []uint8@buf.Buf.Data, jtouched
 //@   ensures [V1-invalid] !fileno(sino(args.File)) ==> result.Status == 22 && noCommit() @C17 @C11
 //@   ensures [W1-refuse] fileno(sino(args.File)) && !wrOK(args, old(ssize(sino(args.File)))) ==> result.Status == 10006 && noCommit() @C17
 //@   ensures [A1-acked] fileno(sino(args.File)) && wrOK(args, old(ssize(sino(args.File)))) ==> oneCommit() && (result.Status == 0 <==> lastst == 1) && (result.Status == 0 || result.Status == 10006) @C17
@@ -159,7 +161,7 @@ package simple
 //@   props C17 C11 C14
 //@   requires simpleInv(nfs)
 //@   allocates jrnl.Op, simple.Inode, buf.Buf, marshal.Dec, marshal.Enc, cell:uint64, nfstypes.SETATTR3res, []uint8
-//@   modifies held, lastst, jcommits, jblk, buf.Buf.dirty, []uint8@buf.Buf.Data
+//@   modifies held, lastst, jcommits, jblk, buf.Buf.dirty, []uint8@buf.Buf.Data, jtouched
 //@   ensures [V1-invalid] !fileno(sino(args.Object)) ==> result.Status == 22 && noCommit() @C17 @C11
 //@   ensures [T1-toobig] fileno(sino(args.Object)) && args.New_attributes.Size.Set_it && uint64(args.New_attributes.Size.Size) > 4096 ==> result.Status == 28 && noCommit() @C17
 //@   ensures [T1-nosize] fileno(sino(args.Object)) && !args.New_attributes.Size.Set_it ==> viewSame() && oneCommit() @C17
@@ -174,7 +176,7 @@ package simple
 //@   props C17 C11 C14
 //@   requires simpleInv(nfs)
 //@   allocates jrnl.Op, nfstypes.COMMIT3res
-//@   modifies held, lastst, jcommits
+//@   modifies held, lastst, jcommits, jtouched
 //@   ensures [V1-invalid] !fileno(sino(args.File)) ==> result.Status == 22 && noCommit() @C17 @C11
 //@   ensures [A1-acked] fileno(sino(args.File)) ==> oneCommit() && (result.Status == 0 <==> lastst == 1) @C17
 //@   ensures [A2-readonly] viewSame() @C17
@@ -195,8 +197,10 @@ package simple
 //@   props C17 C11
 //@   requires op != nil && diskOK() && (forall i uint64 :: i < 32 ==> held[i])
 //@   allocates simple.Inode, buf.Buf, marshal.Dec, marshal.Enc, cell:uint64, []uint8
-//@   modifies jblk
+//@   modifies jblk, jtouched
 //@   ensures [SI-init] forall j uint64 :: j < 32 ==> sblk(j) == 514 + j @C17
+//@   ensures [touched-range] forall j uint64 :: jtouched[j] ==> old(jtouched)[j] || j < 32
+//@   loop 0 invariant [touched] forall j uint64 :: jtouched[j] ==> old(jtouched)[j] || j < 32
 //@   loop 0 invariant i <= 32 && (forall j uint64 :: j < i ==> sblk(j) == 514 + j) && (forall p *Inode :: !fresh(p) ==> p.Data == old(p.Data))
 //@   loop 0 decreases 32 - i
 
@@ -209,7 +213,7 @@ package simple
 //@   entryassumes [boot-disk] diskOK()
 //@   entryassumes [boot-single-threaded] forall i uint64 :: i < 32 ==> held[i]
 //@   allocates obj.Log, jrnl.Op, simple.Inode, buf.Buf, marshal.Dec, marshal.Enc, cell:uint64, []uint8
-//@   modifies jblk, jcommits, lastst, dsk, recovered, dpending
+//@   modifies jblk, jcommits, lastst, dsk, recovered, dpending, jtouched
 //@   ensures [K1-one-commit] jcommits == old(jcommits) + 1 @C17
 //@   ensures [K1-durable] result != nil ==> lastst == 1 && recovered @C17
 //@   ensures [SI-init] result != nil ==> (forall j uint64 :: j < 32 ==> sblk(j) == 514 + j) @C17
@@ -220,7 +224,7 @@ package simple
 //@   entryassumes [boot-disk] diskOK()
 //@   entryassumes [boot-single-threaded] forall i uint64 :: i < 32 ==> held[i]
 //@   allocates obj.Log, jrnl.Op, simple.Inode, simple.Nfs, lockmap.LockMap, buf.Buf, marshal.Dec, marshal.Enc, cell:uint64, []uint8
-//@   modifies jblk, jcommits, lastst, dsk, recovered, dpending
+//@   modifies jblk, jcommits, lastst, dsk, recovered, dpending, jtouched
 //@   ensures [K1-one-commit] jcommits == old(jcommits) + 1 @C17
 //@   ensures [K1-durable] result != nil ==> lastst == 1 && recovered && result.t != nil && result.l != nil @C17
 //@   ensures [SI-init] result != nil ==> (forall j uint64 :: j < 32 ==> sblk(j) == 514 + j) @C17
